@@ -1,1 +1,5 @@
 import Proofs.C17
+import Proofs.Lemmas.Warc
+import Proofs.Lemmas.WarcHistory
+import Proofs.C05
+import Proofs.C07
